@@ -7,6 +7,7 @@ package c11
 import (
 	"encoding/base64"
 	"fmt"
+	"github.com/vulcand/oxy/v2/zverif/fwd"
 	"math"
 	"net/http"
 	"net/http/httptest"
@@ -599,6 +600,10 @@ func Run(tier string, sh lib.Shard, rep *lib.Report) {
 	rep.Bounds["encodings"] = len(encs)
 	rep.Rule = "full product server URL (scheme x userinfo x host x path x query) x cookie encoding (raw, hash, AES 16/32 without and with a lifetime of 5s, 250 years, the largest duration; 16 fallback chains) x front (RoundRobin, Rebalancer): session obligations; for a subset of URLs every truncation / single-bit flip / re-encoding / foreign-key cookie and every pool-change sequence up to length 3; non-trivial = requests whose routing was checked"
 	rep.Require("sessions", "stuck_requests", "balanced_requests", "expired_cookies", "mutated_cookies", "pool_change_sequences", "sessions_with_rewrite_listener")
+	if sh.I == 0 {
+		fwd.StickyThroughForwarder(rep)
+		rep.Require("sticky_exchanges_through_the_real_forwarder")
+	}
 	mutURLs := map[string]bool{}
 	for i, u := range urls {
 		if tier == "thorough" || i%71 == 0 {
